@@ -1,4 +1,5 @@
 use std::{
+    collections::BTreeSet,
     hash::Hash,
     sync::{
         atomic::{AtomicUsize, Ordering},
@@ -7,7 +8,7 @@ use std::{
 };
 
 use async_trait::async_trait;
-use easy_error::{ensure, Error, ResultExt};
+use easy_error::{bail, ensure, Error, ResultExt};
 use milu::{
     parser::parse,
     script::{ScriptContext, Type, Value},
@@ -59,6 +60,8 @@ impl Default for Algorithm {
     }
 }
 
+const MAX_NESTING: usize = 16;
+
 pub fn from_value(value: &serde_yaml::Value) -> Result<ConnectorRef, Error> {
     let ret: LoadBalanceConnector =
         serde_yaml::from_value(value.clone()).context("parse config")?;
@@ -96,7 +99,28 @@ impl Connector for LoadBalanceConnector {
                 n
             );
         }
-        Ok(())
+        // connect() of a balancer calls connect() of the selected member: a balancer that can reach
+        // itself would recurse until the stack is exhausted
+        let mut level: BTreeSet<&str> = self.connectors.iter().map(String::as_str).collect();
+        for _ in 0..MAX_NESTING {
+            level = level
+                .into_iter()
+                .filter_map(|n| state.connectors.get(n))
+                .flat_map(|c| c.members().iter().map(String::as_str))
+                .collect();
+            if level.is_empty() {
+                return Ok(());
+            }
+        }
+        bail!(
+            "{}: load balancers are nested in a cycle or more than {} deep",
+            self.name,
+            MAX_NESTING
+        );
+    }
+
+    fn members(&self) -> &[String] {
+        &self.connectors
     }
 
     async fn connect(
